@@ -17,7 +17,8 @@ THEOREMS = ['Fsic.C20.' + n for n in [
 RULE = ('programs of the C01 grammar (exhaustive small statements under rotating layouts, stress programs with '
         'two-digit lags/leads, parameters/errors with offsets, calls and lazy constructs, sampled programs up to 7 '
         'equations, the same programs with inline verbatim fragments from gen_scripts.VERBS in every equation, and with '
-        'series renamed to function-looking names exp/log/max/min/abs/np/…); for each program the real graph is compared with the model graph and with the term sets of the '
+        'series renamed to function-looking names exp/log/max/min/abs/np/…, with identifiers of up to 64+ characters '
+        'sharing 32/64-character prefixes and long dotted calls, one equation with 50-70 terms, 100-130 equations); for each program the real graph is compared with the model graph and with the term sets of the '
         'grammar AST, and at one feasible period EVERY (series, offset) cell within the model\'s lag/lead window is '
         'perturbed on random data: effect on every endogenous variable after one isolated evaluation of its equation '
         'vs the edges, reads observed with recording arrays. distinct = distinct script text; non-trivial = graph '
@@ -140,10 +141,19 @@ def all_cases(ctx):
         if i % 4 == 1:      # the same program with inline verbatim fragments in every equation
             prog2 = ec.with_inline_verbatim(rng, prog)
             cases.append(mkcase(prog2, gs.render(prog2, L), L.wrap_rhs, 'verbatim', seed))
+        if i % 4 == 2:      # ... / with identifiers of up to 64+ characters (shared 32/64-character prefixes), long dotted calls
+            prog2 = ec.with_long_names(rng, prog)
+            cases.append(mkcase(prog2, gs.render(prog2, L), L.wrap_rhs, 'longnames', seed))
         if i % 4 == 3:      # ... / with some series renamed to function-looking names the program does not call
             prog2, used = ec.with_function_names(rng, prog)
             if used:
                 cases.append(mkcase(prog2, gs.render(prog2, L), L.wrap_rhs, 'fnames', seed))
+    # scale: 50+ terms in one equation, 100+ equations
+    for i in range((2 if quick else 25) * ctx.scale):
+        for prog, kind in ((ec.many_terms_program(rng, rng.randint(50, 70)), 'many-terms'),
+                           (ec.many_equations_program(rng, rng.randint(100, 130)), 'many-equations')):
+            L = gs.random_layout(rng) if i % 2 else gs.PLAIN
+            cases.append(mkcase(prog, gs.render(prog, L), L.wrap_rhs, 'big:' + kind, seed))
     return cases
 
 
@@ -214,6 +224,8 @@ def observe_(case, rep):
         rep.dist['programs-with-inline-verbatim'] += 1
         for f in set(frags):
             rep.dist['fragment:' + f] += 1
+    rep.dist['longest-name:' + ec.length_bucket(prog)] += 1
+    rep.dist['terms-in-longest-equation:' + ('>=50' if max(len(gs.terms_of(st.rhs)) for st in eqs) >= 50 else '<50')] += 1
     for nm in sorted(set(data0) & set(ec.FUNCTION_LIKE)):
         rep.dist['series-name:' + nm] += 1
     for st in eqs:
@@ -229,7 +241,7 @@ def observe_(case, rep):
             violate('equation-attribute-missing', f'node {y} carries no equation')
         else:
             ref = {k: v.copy() for k, v in data0.items()}
-            ec.run_reference(gs.Program([st]), ref, t, env={'self': m0, 'len': len, 'float': float, 'np': np})
+            _w, _r, exc_ref = ec.run_reference(gs.Program([st]), ref, t, env={'self': m0, 'len': len, 'float': float, 'np': np})
             env = {'exp': np.exp, 'log': np.log, 'max': max, 'min': min, 'abs': abs, 'np': np, 'self': m0, 'len': len,
                    'float': float}
             env.update({nm: ec.Ser(v.copy(), None) for nm, v in data0.items()})   # a series named `exp` is `exp[t]`
@@ -247,7 +259,8 @@ def observe_(case, rep):
             except _Skip:
                 pass
             except Exception as e:  # noqa: BLE001
-                violate('equation-attribute-wrong', f'equation on node {y} ({eqtext!r}) not evaluable: {type(e).__name__}')
+                if type(e).__name__ != exc_ref:     # (the script's own equation may raise, e.g. 7 / `len({})`)
+                    violate('equation-attribute-wrong', f'equation on node {y} ({eqtext!r}) not evaluable: {type(e).__name__}')
         want = {(x.name, x.offset) for x in gs.terms_of(st.rhs)}
         got = {var_nodes[a] for a, c in G.in_edges(y) if a in var_nodes}
         n_edges += len(got)
@@ -298,10 +311,13 @@ def observe_(case, rep):
             key = 'lazy-branch-not-read' if lazy.get(c, False) else 'edge-not-read'
             violate(key, f'{c[0]}[t{c[1]:+d}] has an edge into {y} but is not read when {y} is evaluated at t={t} '
                          f'({"in a branch not taken / short-circuited operand" if key.startswith("lazy") else "strict position"})')
-        for nm in sorted(data0):
-            for k in range(-lags, leads + 1):
-                if not 0 <= t + k < n:
-                    continue
+        cells = [(nm, k) for nm in sorted(data0) for k in range(-lags, leads + 1) if 0 <= t + k < n]
+        if len(cells) > 80:     # large programs: every cell with an edge, plus a sample of the others
+            others = [c for c in cells if c not in got]
+            cells = [c for c in cells if c in got] + rng.sample(others, min(len(others), 30))
+            rep.dist['perturbation:sampled-cells'] += 1
+        for nm, k in cells:
+            if True:
                 exc1, y1 = evaluate((nm, t + k))
                 changed = exc1 is not None or not ec.same_float(y0, y1)
                 rep.dist['perturbation:' + ('edge' if (nm, k) in got else 'no-edge') + (':changed' if changed else ':same')] += 1
